@@ -29,11 +29,25 @@ type InlineResult struct {
 	Inlined []string // "caller <- callee" per inlined call site
 }
 
-func inlinable(g *Function, max int) bool {
-	if g == nil || g.Blocks == nil || g.parent != nil || len(g.FreeVars) > 0 || len(g.AnonFuncs) > 0 || g.Recover != nil {
+// inlinable: g can be inlined at a call whose callee value is v (a *Function, or the *MakeClosure of the
+// caller that binds g's free variables: a local closure such as `nextKey := func(n int) []byte {...}` is then
+// folded back into the statements it abbreviates).
+func inlinable(g *Function, max int, v Value) bool {
+	if g == nil || g.Blocks == nil || len(g.AnonFuncs) > 0 || g.Recover != nil {
 		return false
 	}
-	if g.typeparams.Len() > 0 || len(g.typeargs) > 0 || g.Synthetic != "" {
+	if mc, ok := v.(*MakeClosure); ok {
+		if len(mc.Bindings) != len(g.FreeVars) {
+			return false
+		}
+	} else if len(g.FreeVars) > 0 {
+		return false
+	}
+	// a generic function's body is not code; its instances (built in full under InstantiateGenerics) are
+	if g.typeparams.Len() > 0 && len(g.typeargs) == 0 {
+		return false
+	}
+	if g.Synthetic != "" && len(g.typeargs) == 0 {
 		return false
 	}
 	n := 0
@@ -43,6 +57,9 @@ func inlinable(g *Function, max int) bool {
 			switch ins.(type) {
 			case *Defer, *RunDefers, *Go, *Select, *MakeClosure:
 				return false
+			case *Return:
+				// a closure that assigns to named results of its own and returns them implicitly is fine; one
+				// that is the body of a deferred call is not reached here (Defer above)
 			}
 		}
 	}
@@ -111,7 +128,10 @@ func findInlinableCall(f *Function, opt InlineOptions, max int) *Call {
 				continue
 			}
 			g := c.Call.StaticCallee()
-			if g == nil || g == f || !inlinable(g, max) || callsItself(g) {
+			if g == nil || g == f || !inlinable(g, max, c.Call.Value) || callsItself(g) {
+				continue
+			}
+			if mc, ok := c.Call.Value.(*MakeClosure); ok && mc.Parent() != f {
 				continue
 			}
 			if opt.Callee != nil && !opt.Callee(g) {
@@ -262,6 +282,11 @@ func inlineOne(f *Function, call *Call, g *Function) {
 	vmap := map[Value]Value{}
 	for i, p := range g.Params {
 		vmap[p] = call.Call.Args[i]
+	}
+	if mc, ok := call.Call.Value.(*MakeClosure); ok {
+		for i, fv := range g.FreeVars {
+			vmap[fv] = mc.Bindings[i]
+		}
 	}
 	bmap := map[*BasicBlock]*BasicBlock{}
 	var clones []*BasicBlock
@@ -424,13 +449,34 @@ func inlineOne(f *Function, call *Call, g *Function) {
 		rebuild(f)
 		cur = m
 	}
-	// a local whose address was only taken to hand it to the helper (takeKey(&stream, n)) is a plain
-	// register again once the helper is inlined
+	// a closure value nobody calls or keeps any more
+	if removeDeadClosures(f) {
+		rebuild(f)
+	}
+	// a local whose address was only taken to hand it to the helper (takeKey(&stream, n)), or that was
+	// captured by a closure that is gone now, is a plain register again once the helper is inlined
 	if hasLiftableAlloc(f) {
 		lift(f)
 		rebuild(f)
 	}
 	_ = types.Typ
+}
+
+// removeDeadClosures deletes MakeClosure instructions without referrers.
+func removeDeadClosures(f *Function) bool {
+	changed := false
+	for _, b := range f.Blocks {
+		kept := b.Instrs[:0]
+		for _, ins := range b.Instrs {
+			if mc, ok := ins.(*MakeClosure); ok && len(*mc.Referrers()) == 0 {
+				changed = true
+				continue
+			}
+			kept = append(kept, ins)
+		}
+		b.Instrs = kept
+	}
+	return changed
 }
 
 func hasLiftableAlloc(f *Function) bool {
